@@ -214,6 +214,19 @@ fn build(seeds: &[u16]) -> (CfgSpec, Vec<(String, String, bool)>, Vec<String>, S
         if s.chance(30) {
             script.push((h.clone(), "AWAY :hidden away".into(), true));
         }
+        // sometimes #pub0 is crowded in both worlds (more members than one 353 line holds): the shape
+        // of the NAMES reply must not depend on the hidden member either
+        // (only where #pub0 has a visible founder in both worlds)
+        let visible_founder = script.iter().any(|(n, l, h)| !*h && l == "JOIN #pub0" && *n != obs);
+        if chans.contains(&"#pub0") && visible_founder && s.chance(30) {
+            let extra = 19 + s.pick(30);
+            for k in 0..extra {
+                let n = format!("y{}", k);
+                nicks.insert(nicks.len() - 1, n.clone());
+                // (they come last: who founded #pub0 and who may kick whom stays as it was)
+                script.push((n, "JOIN #pub0".into(), false));
+            }
+        }
         // things the hidden user does afterwards that must leave its +i alone
         if s.chance(40) {
             let l = ["OPER op0 operpw0", "OPER op0 wrong", "MODE nh +w", "MODE nh -w+w", "CAP REQ :multi-prefix", "CAP END", "MODE nh +i", "MODE nh -o", "AWAY"][s.pick(9)];
@@ -327,6 +340,25 @@ pub fn check(c: &PairCase, st: &mut Stats) -> Result<(), Viol> {
             }
             st.count("speak_probes");
             continue;
+        }
+        if verb == "NAMES" {
+            // the shape of the reply (how many names each 353 line carries) is part of the answer
+            let shape = |ls: Option<&Vec<String>>| -> Vec<usize> {
+                let mut v: Vec<usize> = ls
+                    .map(|x| x.iter().filter(|l| l.contains(" 353 ")).map(|l| l.rsplit(':').next().unwrap_or("").split(' ').filter(|t| !t.is_empty()).count()).collect())
+                    .unwrap_or_default();
+                v.sort();
+                v
+            };
+            let (s1, s0) = (shape(r1.get(&o1)), shape(r0.get(&o0)));
+            if s1 != s0 {
+                return Err(Viol::new(
+                    "C12.non_interference",
+                    format!("{}:names-shape", hidden_kind),
+                    format!("observer ({}) asks `{}`: with the hidden {} the 353 lines carry {:?} names, without it {:?}", obs_kind, q, hidden_kind, s1, s0),
+                )
+                .with_transcript(w1.log.iter().rev().take(30).rev().cloned().collect()));
+            }
         }
         let mut n1 = norm::normalise(SERVER_NAME, r1.get(&o1).unwrap_or(&vec![])).items;
         let mut n0 = norm::normalise(SERVER_NAME, r0.get(&o0).unwrap_or(&vec![])).items;
